@@ -37,9 +37,20 @@ CONFIG = dict(
                    'the sparse entries of samples <= s and band b, for every sparse history and sampling <, =, > granularity; the pre-fix row '
                    'allocation is refuted); the ground-truth oracle has no negative cell, every row sums to the lines alive at the sample and '
                    'the last row to the lines at HEAD; C01_linear (arbitrary edit scripts on a linear history: no negative cell, row sums = '
-                   'tracked lines at the sample); C01_global_sparse / C01_matrix for conflict-free histories executed along any validated '
-                   'plan: see level_note for the part that is closed.',
-        level_note='(filled in by the builder at the end of the round; see docs/C01.md)',
+                   'tracked lines at the sample); C01_global_sparse and C01_matrix for conflict-free histories executed along any validated '
+                   'plan (linear, forks, diamonds, criss-cross, octopus): the dense project matrix equals the ground-truth matrix; '
+                   'per-file / per-developer / ownership clauses: checked by the oracle on every case, not proved.',
+        level_note='Closed (no axioms): C01_dense (+ refutation of the pre-fix row allocation); oracle facts; C01_linear; C01_global_sparse '
+                   '(conflict-free history + any plan accepted by plan_okb, merges included: the sparse global history is births minus deaths '
+                   'at the right (tick, birth tick), merge commits counted once); C01_matrix (the dense project matrix equals the ground-truth '
+                   'matrix: rows, bands and every cell), C01_no_negative_cell, C01_last_row_is_head. NOT PROVED: the per-file, per-developer '
+                   'and ownership equalities (C01_files / C01_people / C01_ownership of DESIGN.md) - they are judged by the extracted oracle '
+                   'on every replayed case, the model carries those histories and is compared with the implementation, but the proved '
+                   'invariant covers the global history only. The theorems are about the abstract analysis over arrays: the tracker, '
+                   'File.Merge, the planner, tree/file diffs, hibernation, ticks and identities enter as the hypotheses listed under '
+                   'assumptions (C03, C07, C02, C11/C20, C09, C19/C16); the model is tied to burndown.go by replay, not by proof. '
+                   'conflict_free contains two redundant executable conjuncts (ticks monotone along ancestry, killer tick >= birth tick) '
+                   'that are checked instead of derived. Known finding F11 (empty-history panic when no text line is ever analysed).',
         technique='machine-checked proof in Coq over a Gallina model of BurndownAnalysis + replay of the real pipeline on synthetic '
                   'repositories: every matrix cell against the extracted ground truth (PROPFAIL), sparse histories / dense result / final '
                   'files against the extracted model run along the executed plan (MISMATCH)',
